@@ -65,9 +65,11 @@ static ld sort_key(int rule, cld x)
 static void krylov_case(vf::Draw& d, vf::Case& c)
 {
     int family = (int) d.range("family", 0, 5);
-    vf::Problem<Real> P = vf::draw_problem<Real>(d, family, (Index) vf::options().geti("nmax", 24));
+    vf::Problem<Real> P = vf::draw_problem<Real>(d, family, (Index) vf::options().geti("nmax", 24), 8);
     c.add_desc(P.desc);
     c.cls(std::string(vf::FAMILY_NAMES[family]));
+    if (P.cls.find("+extreme") != std::string::npos)
+        c.cls(P.cls.find("+extreme_huge") != std::string::npos ? "extreme_scale/huge" : "extreme_scale/tiny");
     if (!P.ok)
     {
         c.rejected = true;
